@@ -1,0 +1,25 @@
+//! Verification-only seams. Compiled only with `--cfg reinterpretcat_vrp_verif`; shipped builds
+//! are unaffected.
+
+use crate::construction::heuristics::InsertionContext;
+use std::cell::RefCell;
+use std::rc::Rc;
+
+/// A callback which is called after every applied insertion of the construction heuristic.
+pub type InsertionObserver = Rc<dyn Fn(&InsertionContext)>;
+
+thread_local! {
+    static OBSERVER: RefCell<Option<InsertionObserver>> = const { RefCell::new(None) };
+}
+
+/// Installs (or removes) an insertion observer for the current thread returning the previous one.
+pub fn set_insertion_observer(observer: Option<InsertionObserver>) -> Option<InsertionObserver> {
+    OBSERVER.with(|o| std::mem::replace(&mut *o.borrow_mut(), observer))
+}
+
+pub(crate) fn on_insertion_applied(insertion_ctx: &InsertionContext) {
+    let observer = OBSERVER.with(|o| o.borrow().clone());
+    if let Some(observer) = observer {
+        observer(insertion_ctx);
+    }
+}
